@@ -39,6 +39,8 @@ pub fn idle_lines() -> Vec<&'static str> {
         "DIM B(9223372036854775807)",
         "DIM C(99,100)",
         "DIM E(1,9223372036854775807)",
+        "IF 1 THEN PRINT ((1/0))",
+        "IF 0 THEN PRINT 1 ELSE RETURN",
         "DIM D(1,1,1,1,1,1,1,1,1,1,1,1,1,1,1,1,1,1,1,1)",
         "A(1)=1",
         "PRINT A(4294967296)",
@@ -125,6 +127,16 @@ pub fn check_transition(t: &Transition, s: &mut Sess) -> Vec<Violation> {
             }
         }
         CallResult::Ok => {}
+    }
+    if !matches!(t.result, CallResult::Panic(_)) {
+        if let Ok(snap) = guarded(|| s.it.verif_snapshot()) {
+            if snap.nesting_depth != 0 {
+                out.push(mk(
+                    "nesting budget not restored after a call".into(),
+                    format!("after {:?} the nesting-depth counter stands at {} (each such call permanently shrinks the nesting the interpreter accepts until every expression is refused)", t.ev, snap.nesting_depth),
+                ));
+            }
+        }
     }
     out
 }
